@@ -172,9 +172,9 @@ PROPS = {
     },
     "C13": {
         "claimed": True,
-        "technique": "generated fields (TLA+ generator, reading by construction) run through the real wrap_and_sort; output judged against the canonical form, multiset equality with the constructed reading, sortedness and idempotence",
+        "technique": "generated fields (TLA+ generator, reading by construction) run through the real wrap_and_sort; the canonical form of every relation is a token list defined in the TLA+ specification (MCRelDocs.CanonRel) and the output must be exactly its rendering; plus multiset equality with the constructed reading, sortedness, idempotence on text and returned object",
         "level_text": "every field generated by spec/MCRelDocs.tla is normalised by the real Relations::wrap_and_sort (and Entry::wrap_and_sort); the output must parse strictly, denote the same multiset of entries/alternatives with all components (negations, epochs, profile groups, substitution variables) as the reading known by construction, equal the canonical rendering of its own content, be sorted by name and be a fixed point.",
-        "level_note": "the sort key beyond the package name is not pinned by the property and not judged; canonical rendering is implemented in the harness from the property's literal format",
+        "level_note": "the sort key beyond the package name is not pinned by the property and not judged; the canonical form comes from the specification (CanonRel) and is compared exactly whenever the order is determined (no substitution variable, all names distinct: 93 % of the runs), otherwise the harness' own rendering of the re-read output is used",
         "stages": [REL_WRAP],
         "rule": "every generated field, 3 concretisations",
         "exhaustive": {"quick": True, "thorough": True},
